@@ -105,7 +105,7 @@ EDITS = [
     ("argument-default-null-to-value", "by: Int = 1", "by: Int = null", "by"),
     ("input-field-default-null-added", "  minAge: Int\n", "  minAge: Int = null\n", "minAge"),
     ("directive-argument-default-null-added", 'n: Int) on', 'n: Int = null) on', "n"),
-    ("remove-input-field", "  minAge: Int\n", "", "minAge"),
+    ("remove-input-field", "  nested: Filter\n", "", "nested"),
     ("add-optional-input-field", "  minAge: Int\n", "  minAge: Int\n  maxAge: Int\n", "maxAge"),
     ("add-required-input-field", "  x: Int\n", "  x: Int\n  y: Int!\n", "y"),
     ("retype-input-field", "  x: Int\n", "  x: String\n", "x"),
